@@ -30,6 +30,7 @@ type Program struct {
 	Files     []*ContractFile
 	LoadErrs  []string
 	gtab      globalTable
+	aliases   map[string]map[string]string
 }
 
 func funcKey(fn *ssa.Function) string {
@@ -138,6 +139,27 @@ func LoadProgram(repoDir string, patterns []string, overlay map[string][]byte, l
 		}
 	}
 	return p, nil
+}
+
+// importAlias resolves a name used for an imported package in the source files of package pkgPath.
+func (p *Program) importAlias(pkgPath, name string) (string, bool) {
+	if p.aliases == nil {
+		p.aliases = map[string]map[string]string{}
+		for _, pk := range p.Pkgs {
+			m := map[string]string{}
+			for _, f := range pk.Syntax {
+				for _, imp := range f.Imports {
+					path := strings.Trim(imp.Path.Value, "\"")
+					if imp.Name != nil && imp.Name.Name != "_" && imp.Name.Name != "." {
+						m[imp.Name.Name] = path
+					}
+				}
+			}
+			p.aliases[pk.PkgPath] = m
+		}
+	}
+	path, ok := p.aliases[pkgPath][name]
+	return path, ok
 }
 
 func (p *Program) addFile(cf *ContractFile) {
